@@ -17,7 +17,7 @@ pub fn show(h: &[Ev]) -> String {
         .map(|e| match e {
             Ev::P(d, v) => format!("P(+{}ns,{:?})", d, v),
             Ev::N => "N".to_string(),
-            Ev::Er => "E1".to_string(),
+            Ev::Er => "E".to_string(),
         })
         .collect::<Vec<_>>()
         .join(",")
@@ -48,7 +48,7 @@ pub fn run_real(cfg: Cfg, h: &[Ev], t0: i64) -> Vec<(u32, Obs, u32, Obs)> {
         ($sf:expr, $sq:expr) => {{
             let mut sf = $sf;
             let mut sq = $sq;
-            for e in h {
+            for (k, e) in h.iter().enumerate() {
                 match e {
                     Ev::P(d, v) => {
                         t += d;
@@ -60,8 +60,8 @@ pub fn run_real(cfg: Cfg, h: &[Ev], t0: i64) -> Vec<(u32, Obs, u32, Obs)> {
                         inq.borrow_mut().next = Ok(None);
                     }
                     Ev::Er => {
-                        inf.borrow_mut().next = Err(E1);
-                        inq.borrow_mut().next = Err(E1);
+                        inf.borrow_mut().next = Err(err_at(k));
+                        inq.borrow_mut().next = Err(err_at(k));
                     }
                 }
                 let uf = obs_unit(&sf.update());
@@ -117,8 +117,8 @@ pub fn check_history(cfg: Cfg, h: &[Ev], e: &mut Eng) -> u64 {
                 window.clear();
                 contrib.clear();
                 prev_out = None;
-                if uf != 3 {
-                    fail(e, "update-result", "update() did not return the input's error".to_string());
+                if uf != obs_unit(&Err(err_at(k))) {
+                    fail(e, "update-result", format!("update() did not return the input's error {:?} (code {})", err_at(k), uf));
                     return n as u64;
                 }
             }
